@@ -39,6 +39,7 @@ func C01(r *core.Run) {
 	presentNeverSkipped(r, "lib/j5reflect", "propSet.RangeValues", "every present property is encoded") // an allocated but empty wrapper is a value
 	anyContent(r)                                                                                       // an Any of an all-default message still carries (empty) content
 	oneofWrapperAllFields(r)                                                                            // an object with a `oneof type` and sibling fields is an object: as a oneof its populated values cannot be encoded
+	leniency(r)                                                                                         // the short enum name the encoder writes is looked up as given before any prefix is stripped
 	rules.PoolAlias(r, []string{codecRel})                                                              // encode(m) stays the encoding of m: it is not memory a later encode writes over
 }
 
